@@ -14,7 +14,7 @@ import LogosModel.CertP
 import LogosModel.FastCheck
 import LogosModel.DriverLook
 import LogosModel.Emit
-import LogosModel.PassesProof
+import LogosModel.PassesAll
 import Std.Data.HashMap
 import LogosModel.Source
 import Std.Data.HashSet
@@ -380,8 +380,8 @@ def passesAnswer (c : Case) : String :=
   | some i => s!"DIFF state {i} model={repr (g.get i)} code={repr (f.get i)}"
   | none =>
     let b := fun (x : Bool) => if x then "1" else "0"
-    -- side conditions of `earlyLate_walkAttempt` on this raw graph
-    s!"SAME {c.rawStates.size} {f.states.size} side={b (Passes.rawNoEarly raw)}{b (Passes.rawRootOK raw)}{b (Passes.earlyEoiOK raw)}{b (Passes.rawClosed raw)}"
+    -- side conditions of `passes_matched` / `passes_nomatch` / `passes_eoi` on this raw graph
+    s!"SAME {c.rawStates.size} {f.states.size} side={b (Passes.sideOK raw)}"
 
 def answer (c : Case) (q : List String) : String :=
   match q with
